@@ -4,12 +4,14 @@ use aquatic_udp::workers::socket::verif_validator_harness as h;
 
 #[kani::proof]
 #[kani::unwind(6)]
+#[kani::stub(constant_time_eq::constant_time_eq, crate::ct_eq_stub)]
 fn c05_window() {
     h::c05_window();
 }
 
 #[kani::proof]
 #[kani::unwind(6)]
+#[kani::stub(constant_time_eq::constant_time_eq, crate::ct_eq_stub)]
 fn c05_forged() {
     h::c05_forged();
 }
